@@ -38,7 +38,10 @@ impl InferenceRule for MappingAccessRule {
                 return Ok(());
             };
 
-            let p = projection.unwrap_or(0);
+            // A projection that cannot be expressed as a bit offset tells us nothing
+            let Some(bit_offset) = projection.unwrap_or(0).checked_mul(WORD_SIZE_BITS) else {
+                return Ok(());
+            };
             let key_tv = state.var_unchecked(key);
             let original_val_ty = state.var_unchecked(value);
             let val_ty = unsafe { state.allocate_ty_var() };
@@ -47,7 +50,7 @@ impl InferenceRule for MappingAccessRule {
                 val_ty,
                 TE::packed_of(vec![Span::new(
                     original_val_ty,
-                    p * WORD_SIZE_BITS,
+                    bit_offset,
                     WORD_SIZE_BITS,
                 )]),
             );
